@@ -13,9 +13,11 @@ from runner import Case
 THEOREMS = [
     "C18.vertical_lines", "C18.vertical_preorder", "C18.vertical_indent",
     "C18.print_roundtrip", "C18.builtin_styles_ok",
-    "C18.mermaid_ids_injective", "C18.mermaid_edges_exact", "C18.mermaid_vertices", "C18.mermaid_single_no_vertex",
-    "C18.dot_ids_injective_partial", "C18.dot_ids_not_injective", "C18.dot_edges_exact",
-    "C18.h_bands", "C18.h_leaf_order", "C18.h_ascii_not_injective", "C18.builtin_hstyles_ok",
+    "C18.mermaid_ids_injective", "C18.mermaid_ids_nodup", "C18.mermaid_edges_exact", "C18.mermaid_vertices",
+    "C18.mermaid_single_no_vertex",
+    "C18.dot_vertices_labels", "C18.dot_edges_exact", "C18.dot_ids_injective_partial", "C18.dot_ids_not_injective",
+    "C18.h_bands", "C18.h_leaf_order", "C18.h_rows_in_range", "C18.h_parent_in_span", "C18.h_gap_assert",
+    "C18.builtin_hstyles_ok", "C18.h_ascii_not_injective",
 ]
 PROOF_IMPORTS = ["BigtreeProofs.Properties.C18"]
 
@@ -890,7 +892,8 @@ def is_known(case, msg, entries):
         vs, _es = _dot(nodes)
         want = _scheme_ids(spec)
         real = [v[0] for v in vs]
-        if real != want or sorted(v[1] for v in vs) != sorted(s[0] for _p, _d, s in t_pre(spec)):
+        # pydot groups vertices by name, so compare as multisets of (id, label)
+        if sorted(vs) != sorted(zip(want, (s[0] for _p, _d, s in t_pre(spec)))):
             return False
         dup = {i for i in real if real.count(i) > 1}
         # every colliding id must come from two different labels (label ending in a digit), never from one label
@@ -1238,4 +1241,4 @@ def shrink(case):
             yield Case(_line(nd), nd, case.tags)
 
 
-NOT_READY = True
+NOT_READY = False
